@@ -51,14 +51,23 @@ Definition fams_of_llgr (ll : option (list (fam * N))) : list fam :=
 
 Definition subset_b (a b : list N) : bool := forallb (fun x => mem x b) a.
 
-(* the disconnect reason does not allow helper mode for this session: the peer is
-   admin-down, or GR was negotiated and the reason is not eligible (hard reset,
-   non-Cease error, NOTIFICATION / hold-timer expiry without the N bit), or GR was
-   not negotiated and the reason is anything but a TCP failure (LLGR alone follows
-   the same rule as GR) *)
+(* From the property text: helper mode is for a TCP failure and, when both sides set the N bit
+   (RFC 8538), for a Cease NOTIFICATION (sent or received) that is not a Hard Reset and for the
+   expiry of the hold timer; "a hard reset, admin shutdown or non-Cease error never enters
+   helper mode".  Written without reference to the model's gr_applies. *)
+Definition spec_eligible (r : reason) (nbit : bool) : bool :=
+  match r with
+  | RsTcp => true
+  | RsRemoteCease | RsLocalCease | RsHold => nbit
+  | RsRemoteHard | RsLocalHard | RsLocalOther | RsRemoteOther | RsOther => false
+  end.
+
+(* the disconnect reason does not allow helper mode for this session: the peer is admin-down, or
+   GR was negotiated and the reason is not eligible, or GR was not negotiated and the reason is
+   anything but a TCP failure (LLGR alone follows the same rule as GR) *)
 Definition not_eligible (h : hstate) (s : session) (r : reason) : bool :=
   h_admin_down h ||
   match s_gr s with
-  | Some (_, _, nbit) => negb (gr_applies r nbit)
+  | Some (_, _, nbit) => negb (spec_eligible r nbit)
   | None => match r with RsTcp => false | _ => true end
   end.
